@@ -5,6 +5,7 @@ package harness
 import (
 	"context"
 	"fmt"
+	"strings"
 	"sync"
 	"testing"
 	"testing/synctest"
@@ -16,6 +17,11 @@ import (
 
 // establishedChannelsOpt: library client and server channels, established, over the given transport.
 func establishedChannelsOpt(tr string, pipeCap, chanBuf, inprocBuf int) (*lime.ClientChannel, *lime.ServerChannel, func(), string) {
+	return establishedChannelsCfg(tr, pipeCap, chanBuf, inprocBuf, 0, false)
+}
+
+// establishedChannelsCfg: the same with a configured read limit (0 = default) and optionally a trace writer on both TCP ends.
+func establishedChannelsCfg(tr string, pipeCap, chanBuf, inprocBuf int, readLimit int64, trace bool) (*lime.ClientChannel, *lime.ServerChannel, func(), string) {
 	var ct, st lime.Transport
 	var cl, sv *FConn
 	switch tr {
@@ -30,6 +36,15 @@ func establishedChannelsOpt(tr string, pipeCap, chanBuf, inprocBuf int) (*lime.C
 		if tr == "tcp-tls" {
 			s, c := TLSConfigs()
 			scfg, ccfg = &lime.TCPConfig{TLSConfig: s}, &lime.TCPConfig{TLSConfig: c}
+		}
+		if readLimit != 0 || trace {
+			if scfg == nil {
+				scfg, ccfg = &lime.TCPConfig{}, &lime.TCPConfig{}
+			}
+			scfg.ReadLimit, ccfg.ReadLimit = readLimit, readLimit
+			if trace {
+				scfg.TraceWriter, ccfg.TraceWriter = NewCountingTrace(), NewCountingTrace()
+			}
 		}
 		ct = lime.VerifNewTCPTransport(cl, ccfg, false)
 		st = lime.VerifNewTCPTransport(sv, scfg, true)
@@ -77,7 +92,7 @@ func runC04Virtual(c *c04Case) *c04Obs {
 	if tr == "tcp-small" {
 		tr = "tcp"
 	}
-	cc, sc, release, note := establishedChannelsOpt(tr, pipeCap, c.ChanBuf, c.InprocBuf)
+	cc, sc, release, note := establishedChannelsCfg(tr, pipeCap, c.ChanBuf, c.InprocBuf, c.ReadLimit, c.Trace)
 	if note != "" {
 		obs.Note = note
 		release()
@@ -132,6 +147,12 @@ func genC04(rt *rapid.T, transports []string) *c04Case {
 	}
 	if c.Transport == "tcp-small" {
 		c.PipeCap = rapid.SampledFrom([]int{1024, 2048, 4096}).Draw(rt, "pipeCap")
+	}
+	if c.Transport != "inproc" && !strings.HasPrefix(c.Transport, "ws") {
+		// a read limit just above the largest envelope of the workload (it bounds one envelope, not the session), and
+		// sometimes a traced transport
+		c.ReadLimit = rapid.SampledFrom([]int64{0, 0, 160 << 10}).Draw(rt, "readLimit")
+		c.Trace = rapid.IntRange(0, 4).Draw(rt, "trace") == 0
 	}
 	dirs := rapid.IntRange(1, 3).Draw(rt, "dirs") // 1: c2s, 2: s2c, 3: both
 	budget := 300
